@@ -178,10 +178,12 @@ Definition lax_decode_bundle (bs : bytes) : option (primary * list lblock) :=
   end.
 
 (** Verdict of [recv_bundle]'s CRC gate on received octets, as far as the lax
-    model knows: 0 no position, 1 dropped (some CRC fails), 2 passes the gate. *)
+    model knows: 0 no position, 1 dropped (some CRC fails), 2 passes the gate.
+    The primary block is re-encoded through the EID text conversion
+    ([EidField.i2m], [Bundle.impl_norm_primary]) before its CRC is recomputed. *)
 Definition lax_verdict (bs : bytes) : N :=
   match lax_decode_bundle bs with
-  | Some (p, bl) => if crc_ok_primary p && forallb lax_crc_ok_block bl then 2 else 1
+  | Some (p, bl) => if crc_ok_primary (impl_norm_primary p) && forallb lax_crc_ok_block bl then 2 else 1
   | None => 0
   end.
 
@@ -220,21 +222,28 @@ Definition run_rx (c : bytes * list (nat * bytes)) : list (list N) :=
     first): [CRC type; number of items; stored CRC octets (or []); CRC octets by
     the polynomial specification over the block with the field zeroed (or [])],
     preceded by [decodes strictly and canonically; model check passes; the
-    bundle equals its own [with_crc_bundle]]. *)
+    bundle equals its own [with_crc_bundle]].  [f] computes the CRC column. *)
 Definition ren_crc (o : option bytes) : bytes := match o with Some v => v | None => [] end.
 
-Definition tx_primary_row (p : primary) : list bytes :=
+Definition tx_primary_row (f : N -> bytes -> option bytes) (p : primary) : list bytes :=
   [[crc_type p]; [N.of_nat (length (primary_items p))]; ren_crc (crc p);
-   ren_crc (crc_spec_field (crc_type p) (encode_primary (zero_primary p)))].
-Definition tx_block_row (b : cblock) : list bytes :=
+   ren_crc (f (crc_type p) (encode_primary (zero_primary p)))].
+Definition tx_block_row (f : N -> bytes -> option bytes) (b : cblock) : list bytes :=
   [[bcrc_type b]; [N.of_nat (length (cblock_items b))]; ren_crc (bcrc b);
-   ren_crc (crc_spec_field (bcrc_type b) (encode_cblock (zero_block b)))].
+   ren_crc (f (bcrc_type b) (encode_cblock (zero_block b)))].
 
-Definition run_tx (bs : bytes) : option (list bool * list (list bytes)) :=
+Definition run_tx_gen (f : N -> bytes -> option bytes) (bs : bytes) : option (list bool * list (list bytes)) :=
   match decode_bundle bs with
   | Some b =>
       Some ([bytes_eqb (encode_bundle b) bs; crc_ok_bundle b;
              bytes_eqb (encode_bundle (with_crc_bundle b)) bs],
-            tx_primary_row (prim b) :: map tx_block_row (blocks b))
+            tx_primary_row f (prim b) :: map (tx_block_row f) (blocks b))
   | None => None
   end.
+
+(** CRC column by the executable shift register ([crc16_x25_spec] / [crc32c_spec]
+    prove it equal to the polynomial specification) - fast, used for every
+    transmission - and by the polynomial specification itself - slow, used on a
+    sample. *)
+Definition run_tx : bytes -> option (list bool * list (list bytes)) := run_tx_gen crc_field.
+Definition run_tx_spec : bytes -> option (list bool * list (list bytes)) := run_tx_gen crc_spec_field.
